@@ -1,20 +1,26 @@
 #!/bin/sh
-# Extracts the CFetch2 model (coq/CFetch2/Extract.v; needs coq/CFetch2/Model.vo from the main build,
-# COQROOT overrides the Coq tree) and builds the H2+H10 trace replayer.
-# Output: /verif/.build/ocaml-cfetch/replay2
+# Extracts the CFetch2 / CFetchD models (coq/CFetch2/Extract.v, coq/CFetchD/Extract.v; they need
+# the .vo of their Model.v from the main build; COQROOT overrides the Coq tree) and builds the
+# H2+H10 trace replayers.
+# Output: /verif/.build/ocaml-cfetch/replay2 (static call lists), replay3 (dynamic call lists,
+# durabilities, the durability short-cut)
 set -eu
 here=$(cd "$(dirname "$0")" && pwd)
 root=$(cd "$here/../.." && pwd)
 coqroot=${COQROOT:-$root/coq}
 out=$root/.build/ocaml-cfetch
 mkdir -p "$out"
-cd "$out"
-rm -f cfetch2_model.ml cfetch2_model.mli *.cm* *.o
-cp "$coqroot/CFetch2/Extract.v" Extract.v
-timeout 600 coqc -Q "$coqroot" Salsa -o "$out/Extract.vo" Extract.v > extract.log 2>&1
-cp "$here/replay2.ml" .
-ocamlfind ocamlopt -w -a -c cfetch2_model.mli
-ocamlfind ocamlopt -w -a -c cfetch2_model.ml
-ocamlfind ocamlopt -w -a -c replay2.ml
-ocamlfind ocamlopt -o replay2 cfetch2_model.cmx replay2.cmx
-echo "built $out/replay2"
+one() {   # model-dir  ml-name  replayer
+  d=$out/$3.d
+  rm -rf "$d"; mkdir -p "$d"; cd "$d"
+  cp "$coqroot/$1/Extract.v" Extract.v
+  timeout 600 coqc -Q "$coqroot" Salsa -o "$d/Extract.vo" Extract.v > extract.log 2>&1
+  cp "$here/$3.ml" .
+  ocamlfind ocamlopt -w -a -c $2.mli
+  ocamlfind ocamlopt -w -a -c $2.ml
+  ocamlfind ocamlopt -w -a -c $3.ml
+  ocamlfind ocamlopt -o "$out/$3" $2.cmx $3.cmx
+  echo "built $out/$3"
+}
+[ -f "$coqroot/CFetch2/Extract.v" ] && one CFetch2 cfetch2_model replay2
+if [ -f "$coqroot/CFetchD/Extract.v" ]; then one CFetchD cfetchd_model replay3; fi
